@@ -13,101 +13,101 @@ Lemma c_key_pads_ok : store_key_pad = 20%Z /\ region_key_pad = 20%Z /\ leader_we
 Proof. repeat split. Qed.
 
 Lemma src_storePath_ok : src_storePath =
-  ["return path.Join(clusterPath, ""s"", fmt.Sprintf(""%020d"", storeID))"].
+  ["return path.Join(clusterPath, ""s"", fmt.Sprintf(""%020d"", v1))"].
 Proof. reflexivity. Qed.
 
 Lemma src_regionPath_ok : src_regionPath =
-  ["return path.Join(clusterPath, ""r"", fmt.Sprintf(""%020d"", regionID))"].
+  ["return path.Join(clusterPath, ""r"", fmt.Sprintf(""%020d"", v0))"].
 Proof. reflexivity. Qed.
 
 Lemma src_storeLeaderWeightPath_ok : src_storeLeaderWeightPath =
-  ["return path.Join(schedulePath, ""store_weight"", fmt.Sprintf(""%020d"", storeID), ""leader"")"].
+  ["return path.Join(schedulePath, ""store_weight"", fmt.Sprintf(""%020d"", v1), ""leader"")"].
 Proof. reflexivity. Qed.
 
 Lemma src_storeRegionWeightPath_ok : src_storeRegionWeightPath =
-  ["return path.Join(schedulePath, ""store_weight"", fmt.Sprintf(""%020d"", storeID), ""region"")"].
+  ["return path.Join(schedulePath, ""store_weight"", fmt.Sprintf(""%020d"", v1), ""region"")"].
 Proof. reflexivity. Qed.
 
 Lemma skel_LoadStores_ok : skel_LoadStores =
-  [Assign "nextID" ":= uint64(0)"; Call "storePath"; Assign "endKey" ":= s.storePath(math.MaxUint64) + ""\x00"""; ForE [Call "storePath"; Assign "key" ":= s.storePath(nextID)"; Call "LoadRange"; Assign "res" ":= s.LoadRange(key, endKey, minKVRangeLimit)"; IfE "err != nil" [Ret] []; ForE [Call "Unmarshal"; IfE "err != nil" [Ret] []; Call "loadFloatWithDefaultValue"; IfE "err != nil" [Ret] []; Call "loadFloatWithDefaultValue"; IfE "err != nil" [Ret] []; Call "NewStoreInfo"; Assign "nextID" "= store.GetId() + 1"; Call "f"]; IfE "len(res) < minKVRangeLimit || nextID == 0" [Ret] []]].
+  [Assign "v3" ":= uint64(0)"; Call "storePath"; Assign "v4" ":= v0.storePath(math.MaxUint64) + ""\x00"""; ForE [Call "storePath"; Assign "v5" ":= v0.storePath(v3)"; Call "LoadRange"; Assign "v6" ":= v0.LoadRange(v5, v4, minKVRangeLimit)"; Assign "v7" ":= v0.LoadRange(v5, v4, minKVRangeLimit)"; IfE "v7 != nil" [Ret] []; ForE [Assign "v9" ":= &metapb.Store{}"; Call "Unmarshal"; Assign "v10" ":= v9.Unmarshal([]byte(v8))"; IfE "v10 != nil" [Ret] []; Call "loadFloatWithDefaultValue"; Assign "v11" ":= v0.loadFloatWithDefaultValue(v0.storeLeaderWeightPath(v9.GetId()), 1.0)"; Assign "v12" ":= v0.loadFloatWithDefaultValue(v0.storeLeaderWeightPath(v9.GetId()), 1.0)"; IfE "v12 != nil" [Ret] []; Call "loadFloatWithDefaultValue"; Assign "v13" ":= v0.loadFloatWithDefaultValue(v0.storeRegionWeightPath(v9.GetId()), 1.0)"; Assign "v12" ":= v0.loadFloatWithDefaultValue(v0.storeRegionWeightPath(v9.GetId()), 1.0)"; IfE "v12 != nil" [Ret] []; Call "NewStoreInfo"; Assign "v14" ":= NewStoreInfo(v9, SetLeaderWeight(v11), SetRegionWeight(v13))"; Assign "v3" "= v9.GetId() + 1"]; IfE "len(v6) < minKVRangeLimit || v3 == 0" [Ret] []]].
 Proof. reflexivity. Qed.
 
 Lemma skel_loadRegions_ok : skel_loadRegions =
-  [Assign "nextID" ":= uint64(0)"; Call "regionPath"; Assign "endKey" ":= regionPath(math.MaxUint64) + ""\x00"""; Assign "rangeLimit" ":= maxKVRangeLimit"; ForE [Call "regionPath"; Assign "startKey" ":= regionPath(nextID)"; Call "LoadRange"; Assign "res" ":= kv.LoadRange(startKey, endKey, rangeLimit)"; IfE "err != nil" [Assign "rangeLimit" "/= 2"; Ret] []; ForE [Call "Unmarshal"; IfE "err != nil" [Ret] []; Call "DecryptRegion"; IfE "err != nil" [Ret] []; Assign "nextID" "= region.GetId() + 1"; Call "NewRegionInfo"; Call "f"; Assign "overlaps" ":= f(NewRegionInfo(region, nil))"; ForE [Call "deleteRegion"; IfE "err != nil" [Ret] []]]; IfE "len(res) < rangeLimit || nextID == 0" [Ret] []]].
+  [Assign "v4" ":= uint64(0)"; Call "regionPath"; Assign "v5" ":= regionPath(math.MaxUint64) + ""\x00"""; Assign "v6" ":= maxKVRangeLimit"; ForE [Call "regionPath"; Assign "v7" ":= regionPath(v4)"; Call "LoadRange"; Assign "v8" ":= v0.LoadRange(v7, v5, v6)"; Assign "v9" ":= v0.LoadRange(v7, v5, v6)"; IfE "v9 != nil" [Assign "v6" "/= 2"; Ret] []; ForE [Assign "v11" ":= &metapb.Region{}"; Call "Unmarshal"; Assign "v12" ":= v11.Unmarshal([]byte(v10))"; IfE "v12 != nil" [Ret] []; Call "DecryptRegion"; Assign "v9" "= encryption.DecryptRegion(v11, v1)"; IfE "v9 != nil" [Ret] []; Assign "v4" "= v11.GetId() + 1"; Call "NewRegionInfo"; Assign "v13" ":= v2(NewRegionInfo(v11, nil))"; ForE [Call "deleteRegion"; Assign "v15" ":= deleteRegion(v0, v14.GetMeta())"; IfE "v15 != nil" [Ret] []]]; IfE "len(v8) < v6 || v4 == 0" [Ret] []]].
 Proof. reflexivity. Qed.
 
 Lemma src_loadRegions_retry_ok : src_loadRegions_retry =
-  ["if rangeLimit /= 2; rangeLimit >= minKVRangeLimit { continue }"; "return err"].
+  ["if v6 /= 2; v6 >= minKVRangeLimit { continue }"; "return v9"].
 Proof. reflexivity. Qed.
 
 Lemma skel_loadFloatWithDefaultValue_ok : skel_loadFloatWithDefaultValue =
-  [Call "Load"; Assign "res" ":= s.Load(path)"; IfE "err != nil" [Ret] []; IfE "res == """"" [Ret] []; IfE "err != nil" [Ret] []; Ret].
+  [Call "Load"; Assign "v3" ":= v0.Load(v1)"; Assign "v4" ":= v0.Load(v1)"; IfE "v4 != nil" [Ret] []; IfE "v3 == """"" [Ret] []; Assign "v5" ":= strconv.ParseFloat(v3, 64)"; Assign "v4" ":= strconv.ParseFloat(v3, 64)"; IfE "v4 != nil" [Ret] []; Ret].
 Proof. reflexivity. Qed.
 
 Lemma src_rs_SaveRegion_ok : src_rs_SaveRegion =
-  ["region, err := encryption.EncryptRegion(region, s.encryptionKeyManager)"; "if err != nil { return err }"; "s.mu.Lock()"; "defer s.mu.Unlock()"; "if s.cacheSize < s.batchSize-1 { s.batchRegions[regionPath(region.GetId())] = region s.cacheSize++ s.flushTime = time.Now().Add(s.flushRate) return nil }"; "s.batchRegions[regionPath(region.GetId())] = region"; "err = s.flush()"; "if err != nil { return err }"; "return nil"].
+  ["v1, v2 := encryption.EncryptRegion(v1, v0.encryptionKeyManager)"; "if v2 != nil { return v2 }"; "v0.mu.Lock()"; "defer v0.mu.Unlock()"; "if v0.cacheSize < v0.batchSize-1 { v0.batchRegions[regionPath(v1.GetId())] = v1 v0.cacheSize++ v0.flushTime = time.Now().Add(v0.flushRate) return nil }"; "v0.batchRegions[regionPath(v1.GetId())] = v1"; "v2 = v0.flush()"; "if v2 != nil { return v2 }"; "return nil"].
 Proof. reflexivity. Qed.
 
 Lemma src_rs_flush_ok : src_rs_flush =
-  ["if err := s.SaveRegions(s.batchRegions); err != nil { return err }"; "s.cacheSize = 0"; "s.batchRegions = make(map[string]*metapb.Region, s.batchSize)"; "return nil"].
+  ["if v1 := v0.SaveRegions(v0.batchRegions); v1 != nil { return v1 }"; "v0.cacheSize = 0"; "v0.batchRegions = make(map[string]*metapb.Region, v0.batchSize)"; "return nil"].
 Proof. reflexivity. Qed.
 
 Lemma src_rs_FlushRegion_ok : src_rs_FlushRegion =
-  ["s.mu.Lock()"; "defer s.mu.Unlock()"; "return s.flush()"].
+  ["v0.mu.Lock()"; "defer v0.mu.Unlock()"; "return v0.flush()"].
 Proof. reflexivity. Qed.
 
 Lemma src_rs_Close_ok : src_rs_Close =
-  ["err := s.FlushRegion()"; "if err != nil { log.Error(""meet error before close the region storage"", errs.ZapError(err)) }"; "s.regionStorageCancel()"; "err = s.LeveldbKV.Close()"; "if err != nil { return errs.ErrLevelDBClose.Wrap(err).GenWithStackByArgs() }"; "return nil"].
+  ["v1 := v0.FlushRegion()"; "if v1 != nil { }"; "v0.regionStorageCancel()"; "v1 = v0.LeveldbKV.Close()"; "if v1 != nil { return errs.ErrLevelDBClose.Wrap(v1).GenWithStackByArgs() }"; "return nil"].
 Proof. reflexivity. Qed.
 
 Lemma src_deleteRegion_ok : src_deleteRegion =
-  ["return kv.Remove(regionPath(region.GetId()))"].
+  ["return v0.Remove(regionPath(v1.GetId()))"].
 Proof. reflexivity. Qed.
 
 Lemma src_SaveRegion_ok : src_SaveRegion =
-  ["if atomic.LoadInt32(&s.useRegionStorage) > 0 { return s.regionStorage.SaveRegion(region) }"; "return saveRegion(s.Base, s.encryptionKeyManager, region)"].
+  ["if atomic.LoadInt32(&v0.useRegionStorage) > 0 { return v0.regionStorage.SaveRegion(v1) }"; "return saveRegion(v0.Base, v0.encryptionKeyManager, v1)"].
 Proof. reflexivity. Qed.
 
 Lemma src_DeleteRegion_ok : src_DeleteRegion =
-  ["if atomic.LoadInt32(&s.useRegionStorage) > 0 { return deleteRegion(s.regionStorage, region) }"; "return deleteRegion(s.Base, region)"].
+  ["if atomic.LoadInt32(&v0.useRegionStorage) > 0 { return deleteRegion(v0.regionStorage, v1) }"; "return deleteRegion(v0.Base, v1)"].
 Proof. reflexivity. Qed.
 
 Lemma src_LoadRegions_ok : src_LoadRegions =
-  ["if atomic.LoadInt32(&s.useRegionStorage) > 0 { return loadRegions(s.regionStorage, s.encryptionKeyManager, f) }"; "return loadRegions(s.Base, s.encryptionKeyManager, f)"].
+  ["if atomic.LoadInt32(&v0.useRegionStorage) > 0 { return loadRegions(v0.regionStorage, v0.encryptionKeyManager, v1) }"; "return loadRegions(v0.Base, v0.encryptionKeyManager, v1)"].
 Proof. reflexivity. Qed.
 
 Lemma src_LoadRegionsOnce_ok : src_LoadRegionsOnce =
-  ["if atomic.LoadInt32(&s.useRegionStorage) == 0 { return loadRegions(s.Base, s.encryptionKeyManager, f) }"; "s.mu.Lock()"; "defer s.mu.Unlock()"; "if s.regionLoaded == 0 { if err := loadRegions(s.regionStorage, s.encryptionKeyManager, f); err != nil { return err } s.regionLoaded = 1 }"; "return nil"].
+  ["if atomic.LoadInt32(&v0.useRegionStorage) == 0 { return loadRegions(v0.Base, v0.encryptionKeyManager, v1) }"; "v0.mu.Lock()"; "defer v0.mu.Unlock()"; "if v0.regionLoaded == 0 { if v3 := loadRegions(v0.regionStorage, v0.encryptionKeyManager, v1); v3 != nil { return v3 } v0.regionLoaded = 1 }"; "return nil"].
 Proof. reflexivity. Qed.
 
 Lemma src_Flush_ok : src_Flush =
-  ["if s.regionStorage != nil { return s.regionStorage.FlushRegion() }"; "return nil"].
+  ["if v0.regionStorage != nil { return v0.regionStorage.FlushRegion() }"; "return nil"].
 Proof. reflexivity. Qed.
 
 Lemma src_Close_ok : src_Close =
-  ["if s.regionStorage != nil { err := s.regionStorage.Close() if err != nil { return err } }"; "return nil"].
+  ["if v0.regionStorage != nil { v1 := v0.regionStorage.Close() if v1 != nil { return v1 } }"; "return nil"].
 Proof. reflexivity. Qed.
 
 Lemma src_SaveStore_ok : src_SaveStore =
-  ["return saveProto(s.Base, s.storePath(store.GetId()), store)"].
+  ["return saveProto(v0.Base, v0.storePath(v1.GetId()), v1)"].
 Proof. reflexivity. Qed.
 
 Lemma src_DeleteStore_ok : src_DeleteStore =
-  ["id := store.GetId()"; "oldLeader, err := s.Load(s.storeLeaderWeightPath(id))"; "if err != nil { return err }"; "oldRegion, err := s.Load(s.storeRegionWeightPath(id))"; "if err != nil { return err }"; "err = s.Remove(s.storeLeaderWeightPath(id))"; "if err == nil { err = s.Remove(s.storeRegionWeightPath(id)) }"; "if err == nil { err = s.Remove(s.storePath(id)) }"; "if err != nil { s.restoreWeight(s.storeLeaderWeightPath(id), oldLeader) s.restoreWeight(s.storeRegionWeightPath(id), oldRegion) }"; "return err"].
+  ["v2 := v1.GetId()"; "v3, v4 := v0.Load(v0.storeLeaderWeightPath(v2))"; "if v4 != nil { return v4 }"; "v5, v4 := v0.Load(v0.storeRegionWeightPath(v2))"; "if v4 != nil { return v4 }"; "v4 = v0.Remove(v0.storeLeaderWeightPath(v2))"; "if v4 == nil { v4 = v0.Remove(v0.storeRegionWeightPath(v2)) }"; "if v4 == nil { v4 = v0.Remove(v0.storePath(v2)) }"; "if v4 != nil { v0.restoreWeight(v0.storeLeaderWeightPath(v2), v3) v0.restoreWeight(v0.storeRegionWeightPath(v2), v5) }"; "return v4"].
 Proof. reflexivity. Qed.
 
 Lemma src_SaveStoreWeight_ok : src_SaveStoreWeight =
-  ["oldLeader, err := s.Load(s.storeLeaderWeightPath(storeID))"; "if err != nil { return err }"; "oldRegion, err := s.Load(s.storeRegionWeightPath(storeID))"; "if err != nil { return err }"; "leaderValue := strconv.FormatFloat(leader, 'f', -1, 64)"; "regionValue := strconv.FormatFloat(region, 'f', -1, 64)"; "err = s.Save(s.storeLeaderWeightPath(storeID), leaderValue)"; "if err == nil { err = s.Save(s.storeRegionWeightPath(storeID), regionValue) }"; "if err != nil { s.restoreWeight(s.storeLeaderWeightPath(storeID), oldLeader) s.restoreWeight(s.storeRegionWeightPath(storeID), oldRegion) }"; "return err"].
+  ["v4, v5 := v0.Load(v0.storeLeaderWeightPath(v1))"; "if v5 != nil { return v5 }"; "v6, v5 := v0.Load(v0.storeRegionWeightPath(v1))"; "if v5 != nil { return v5 }"; "v7 := strconv.FormatFloat(v2, 'f', -1, 64)"; "v8 := strconv.FormatFloat(v3, 'f', -1, 64)"; "v5 = v0.Save(v0.storeLeaderWeightPath(v1), v7)"; "if v5 == nil { v5 = v0.Save(v0.storeRegionWeightPath(v1), v8) }"; "if v5 != nil { v0.restoreWeight(v0.storeLeaderWeightPath(v1), v4) v0.restoreWeight(v0.storeRegionWeightPath(v1), v6) }"; "return v5"].
 Proof. reflexivity. Qed.
 
 Lemma src_mem_LoadRange_ok : src_mem_LoadRange =
-  ["kv.RLock()"; "defer kv.RUnlock()"; "keys := make([]string, 0, limit)"; "values := make([]string, 0, limit)"; "kv.tree.AscendRange(memoryKVItem{key, """"}, memoryKVItem{endKey, """"}, func(item btree.Item) bool { keys = append(keys, item.(memoryKVItem).key) values = append(values, item.(memoryKVItem).value) if limit > 0 { return len(keys) < limit } return true })"; "return keys, values, nil"].
+  ["v0.RLock()"; "defer v0.RUnlock()"; "v4 := make([]string, 0, v3)"; "v5 := make([]string, 0, v3)"; "v0.tree.AscendRange(memoryKVItem{v1, """"}, memoryKVItem{v2, """"}, func(v6 btree.Item) bool { v4 = append(v4, v6.(memoryKVItem).key) v5 = append(v5, v6.(memoryKVItem).value) if v3 > 0 { return len(v4) < v3 } return true })"; "return v4, v5, nil"].
 Proof. reflexivity. Qed.
 
 Lemma src_etcd_LoadRange_ok : src_etcd_LoadRange =
-  ["key = strings.Join([]string{kv.rootPath, key}, ""/"")"; "endKey = strings.Join([]string{kv.rootPath, endKey}, ""/"")"; "withRange := clientv3.WithRange(endKey)"; "withLimit := clientv3.WithLimit(int64(limit))"; "resp, err := etcdutil.EtcdKVGet(kv.client, key, withRange, withLimit)"; "if err != nil { return nil, nil, err }"; "keys := make([]string, 0, len(resp.Kvs))"; "values := make([]string, 0, len(resp.Kvs))"; "for _, item := range resp.Kvs { keys = append(keys, strings.TrimPrefix(strings.TrimPrefix(string(item.Key), kv.rootPath), ""/"")) values = append(values, string(item.Value)) }"; "return keys, values, nil"].
+  ["v1 = strings.Join([]string{v0.rootPath, v1}, ""/"")"; "v2 = strings.Join([]string{v0.rootPath, v2}, ""/"")"; "v4 := clientv3.WithRange(v2)"; "v5 := clientv3.WithLimit(int64(v3))"; "v6, v7 := etcdutil.EtcdKVGet(v0.client, v1, v4, v5)"; "if v7 != nil { return nil, nil, v7 }"; "v8 := make([]string, 0, len(v6.Kvs))"; "v9 := make([]string, 0, len(v6.Kvs))"; "for _, v10 := range v6.Kvs { v8 = append(v8, strings.TrimPrefix(strings.TrimPrefix(string(v10.Key), v0.rootPath), ""/"")) v9 = append(v9, string(v10.Value)) }"; "return v8, v9, nil"].
 Proof. reflexivity. Qed.
 
 Lemma src_leveldb_LoadRange_ok : src_leveldb_LoadRange =
-  ["iter := kv.NewIterator(&util.Range{Start: []byte(startKey), Limit: []byte(endKey)}, nil)"; "keys := make([]string, 0, limit)"; "values := make([]string, 0, limit)"; "count := 0"; "for iter.Next() { if limit > 0 && count >= limit { break } keys = append(keys, string(iter.Key())) values = append(values, string(iter.Value())) count++ }"; "iter.Release()"; "return keys, values, nil"].
+  ["v4 := v0.NewIterator(&util.Range{Start: []byte(v1), Limit: []byte(v2)}, nil)"; "v5 := make([]string, 0, v3)"; "v6 := make([]string, 0, v3)"; "v7 := 0"; "for v4.Next() { if v3 > 0 && v7 >= v3 { break } v5 = append(v5, string(v4.Key())) v6 = append(v6, string(v4.Value())) v7++ }"; "v4.Release()"; "return v5, v6, nil"].
 Proof. reflexivity. Qed.
